@@ -220,6 +220,12 @@ func applyOnceTxn(update bool) intrinsic {
 		}
 		if r, ok := f.callFnValue(fn, []Val{{T: txn}}, st, c.Signature(), "txnbody"); ok {
 			u.AssumedUse["(*badger.DB).View/Update run their function argument exactly once in a fresh transaction (closure inlined)"] = true
+			if update && r.T.S != "" && r.T.Sort == SIface {
+				// Update returns the function's error, and when that is nil the outcome of the commit (which may fail)
+				ce := u.defs.Fresh("commit_err", SIface)
+				nilI := Term{"nil_iface", SIface}
+				r = Val{T: u.defs.Define("upd_err", Ite(Eq(r.T, nilI), ce, r.T)), Ty: r.Ty}
+			}
 			return r
 		}
 		u.abstractf("%s: transaction body passed to View/Update is not a visible closure: heap havoced", u.name)
